@@ -261,6 +261,7 @@ type lvar struct {
 	aliased bool         // a slice local that is used other than by index, len, range and return (element stores would be shared)
 	nilFlag *lvar        // a map local declared without a value (nil): the boolean local that says it has been made since
 	nilUnknown bool      // ... and it was assigned the result of a call: whether it is nil is not tracked any more
+	origin  *aliasOrigin // write-back mode: where this variable's value was taken from
 }
 
 type extern struct {
@@ -278,6 +279,11 @@ type fnTr struct {
 	fresh   int
 	pairMemo int // 0 unknown, 1 pair result, 2 not
 	curRest  []ast.Stmt // the statements that follow the one being translated, in its list
+	wb       bool       // write-back mode (inout.go, wb.go): in-place updates of a value tree
+	nextRebuild *rebuildSpec // consumed by the next loop(): the collection it ranges over is rebuilt
+	wbAfterCall []*lvar      // set by selfArgs: the locals that received the in-out results of the recursive call
+	io       *inoutInfo
+	aliases  map[types.Object][]types.Object
 	sumJoin  bool       // join mode (see branching): no duplication of what follows a branching statement
 	lenient  bool       // case bodies of type switches that leave the fragment become Crash (see tryBody)
 	lenientDepth int
@@ -1167,6 +1173,7 @@ type extCall struct {
 	outArgs  []*lvar  // locals passed by address, in parameter order
 	stateOut []*lvar  // reader locals passed to the callee (it consumes from them), in parameter order
 	rich     string   // the Gallina pattern kind of R for a call with stateOut: "pair" (v, err) / "triple" / "res" / "one"
+	unbox    map[*lvar]bool // out-arguments that come back as a value and are unboxed into a map / slice local
 }
 
 // envCalls: functions of the standard library that are part of the ENVIRONMENT of the translation (Section variables
@@ -1223,6 +1230,9 @@ func (t *fnTr) externCall(x *ast.CallExpr) (*extCall, bool) {
 	ec := &extCall{}
 	var tys, args []string
 	if recv != nil {
+		if t.io != nil && t.io.params[fn][-1] {
+			t.unsupported(x, "call of a method that updates its receiver in place")
+		}
 		tys = append(tys, fnCoqType(t.kindOfType(sig.Recv().Type())))
 		args = append(args, t.expr(recv))
 	}
@@ -1278,11 +1288,42 @@ func (t *fnTr) externCall(x *ast.CallExpr) (*extCall, bool) {
 					lv = t.locals[t.p.info.Uses[id]]
 				}
 			}
+			if lv == nil {
+				// an out-parameter of this function handed on to the callee
+				if pl := t.lvarOf(a); pl != nil && pl.kind == k {
+					ec.outArgs = append(ec.outArgs, pl)
+					args = append(args, pl.name)
+					break
+				}
+			}
 			if lv == nil || lv.kind != k[4:] {
 				t.unsupported(x, "out-parameter argument other than &local")
 			}
 			ec.outArgs = append(ec.outArgs, lv)
 			args = append(args, lv.name)
+		case (k == "val" || k == "vmap" || k == "vlist") && t.io != nil && t.io.params[fn][i]:
+			// the callee updates the tree below this argument in place: the new value comes back (write-back mode)
+			if !t.wb {
+				t.unsupported(x, "call of a function that updates its argument in place")
+			}
+			al := t.lvarOf(a)
+			if _, isId := unparen(a).(*ast.Ident); !isId || al == nil {
+				t.unsupported(x, "in-out argument other than a local")
+			}
+			switch {
+			case al.kind == k:
+				args = append(args, al.name)
+			case k == "val" && (al.kind == "vmap" || al.kind == "vlist"):
+				// a map / slice local handed to an interface{} parameter: boxed on the way in, unboxed on the way back
+				args = append(args, boxByKind(al))
+				if ec.unbox == nil {
+					ec.unbox = map[*lvar]bool{}
+				}
+				ec.unbox[al] = true
+			default:
+				t.unsupported(x, "in-out argument other than a local of the parameter's type")
+			}
+			ec.outArgs = append(ec.outArgs, al)
 		case k == "bmap" && t.calleeStoresInto(fn, i):
 			// a map[string]bool the callee stores into: threaded like an out-parameter (the argument must be a local map)
 			var lv *lvar
@@ -1328,7 +1369,22 @@ func (t *fnTr) externCall(x *ast.CallExpr) (*extCall, bool) {
 	case len(ec.results) == 2 && ec.results[1] == "err" && len(ec.outArgs) == 0:
 		rty = "(res " + fnCoqType(ec.results[0]) + ")"
 	case len(ec.results) == 0 && len(ec.outArgs) > 0:
-		rty = tupleType(ec.outArgs)
+		if len(ec.unbox) == 0 {
+			rty = tupleType(ec.outArgs)
+		} else {
+			var ts []string
+			for _, oa := range ec.outArgs {
+				if ec.unbox[oa] {
+					ts = append(ts, "value")
+				} else {
+					ts = append(ts, fnCoqType(oa.kind))
+				}
+			}
+			rty = "(" + strings.Join(ts, " * ") + ")"
+			if len(ts) == 1 {
+				rty = ts[0]
+			}
+		}
 	default:
 		t.unsupported(x, "external call with this signature")
 	}
@@ -1525,7 +1581,7 @@ func (t *fnTr) assigned(list []ast.Stmt) []*lvar {
 		}
 	}
 	target := func(e ast.Expr, define bool) {
-		switch l := e.(type) {
+		switch l := unparen(e).(type) {
 		case *ast.StarExpr:
 			if id, ok := l.X.(*ast.Ident); ok {
 				if lv, ok := t.locals[t.p.info.Uses[id]]; ok && strings.HasPrefix(lv.kind, "ptr:") {
@@ -1552,6 +1608,15 @@ func (t *fnTr) assigned(list []ast.Stmt) []*lvar {
 				add(t.lvarOf(se.X))
 			} else if id, ok := l.X.(*ast.Ident); ok {
 				if lv, ok := t.locals[t.p.info.Uses[id]]; ok {
+					add(lv)
+				}
+			}
+		}
+	}
+	if t.wb {
+		for _, m := range t.mutatedRoots(list) {
+			for _, a := range t.ancestors(m) {
+				if lv, ok := t.locals[a]; ok {
 					add(lv)
 				}
 			}
@@ -1665,6 +1730,10 @@ func (t *fnTr) assigned(list []ast.Stmt) []*lvar {
 						if u, ok := a.(*ast.UnaryExpr); ok && u.Op == token.AND {
 							target(u.X, false)
 						}
+						// an out-parameter of this function handed on to the callee
+						if pl := t.lvarOf(a); pl != nil && strings.HasPrefix(pl.kind, "ptr:") {
+							add(pl)
+						}
 					}
 				}
 			}
@@ -1677,6 +1746,7 @@ func (t *fnTr) assigned(list []ast.Stmt) []*lvar {
 // selfArgs: the arguments of a recursive call; state parameters must be passed through unchanged.
 func (t *fnTr) selfArgs(c *ast.CallExpr) []string {
 	t.recurs = true
+	t.wbAfterCall = nil
 	sig := t.self.Type().(*types.Signature)
 	if sig.Variadic() || len(c.Args) != sig.Params().Len() {
 		t.unsupported(c, "recursive call form")
@@ -1687,6 +1757,15 @@ func (t *fnTr) selfArgs(c *ast.CallExpr) []string {
 	back := map[*lvar]string{}
 	for i, a := range c.Args {
 		if sv, isState := t.stateAt[i]; isState {
+			if al := t.lvarOf(a); t.wb && al != nil && al != sv && (sv.kind == "val" || sv.kind == "vmap" || sv.kind == "vlist") {
+				if _, isId := unparen(a).(*ast.Ident); !isId || al.kind != sv.kind {
+					t.unsupported(c, "recursive call whose in-out argument is not a local of the parameter's type")
+				}
+				args = append(args, al.name)
+				back[sv] = al.name
+				t.wbAfterCall = append(t.wbAfterCall, al)
+				continue
+			}
 			if t.lvarOf(a) != sv {
 				t.unsupported(c, "recursive call that does not pass its state parameters through")
 			}
@@ -1987,7 +2066,10 @@ func (t *fnTr) errExpr(e ast.Expr) (string, bool) {
 func (t *fnTr) lvarOf(e ast.Expr) *lvar {
 	switch x := unparen(e).(type) {
 	case *ast.Ident:
-		return t.locals[t.p.info.Uses[x]]
+		if o := t.p.info.Uses[x]; o != nil {
+			return t.locals[o]
+		}
+		return t.locals[t.p.info.Defs[x]]
 	case *ast.SelectorExpr:
 		path := x.Sel.Name
 		cur := x.X
@@ -2230,7 +2312,7 @@ func (t *fnTr) stmts(list []ast.Stmt, end func() string) string {
 		return out + next()
 	case *ast.IncDecStmt:
 		tx := x.X
-		if st, ok := tx.(*ast.StarExpr); ok {
+		if st, ok := unparen(tx).(*ast.StarExpr); ok {
 			tx = st.X
 		}
 		if se, isSel := tx.(*ast.SelectorExpr); isSel && tx == x.X {
@@ -2395,11 +2477,49 @@ func (t *fnTr) stmts(list []ast.Stmt, end func() string) string {
 				if len(ec.results) != 0 || len(ec.outArgs) == 0 {
 					t.unsupported(s, "call for its effect other than a void function with out-parameters")
 				}
-				return t.wrap(mark, "let "+tuplePat(ec.outArgs)+" := "+ec.term+" in\n  "+next())
+				wbs := ""
+				if t.wb {
+					for _, oa := range ec.outArgs {
+						wbs += t.writeBackStr(oa)
+					}
+				}
+				pat := tuplePat(ec.outArgs)
+				unb := ""
+				if len(ec.unbox) > 0 {
+					var ps []string
+					for _, oa := range ec.outArgs {
+						if ec.unbox[oa] {
+							ps = append(ps, oa.name+"_b")
+							ctor := "VMap"
+							if oa.kind == "vlist" {
+								ctor = "VList"
+							}
+							unb += "let " + oa.name + " := match " + oa.name + "_b with " + ctor + " x_ => x_ | _ => " + oa.name + " end in "
+						} else {
+							ps = append(ps, oa.name)
+						}
+					}
+					pat = "'(" + strings.Join(ps, ", ") + ")"
+					if len(ps) == 1 {
+						pat = ps[0]
+					}
+				}
+				return t.wrap(mark, "let "+pat+" := "+ec.term+" in "+unb+wbs+"\n  "+next())
 			}
 		}
 		if !ok || !t.isSelfCall(c) {
 			t.unsupported(s, "expression statement other than a recursive call")
+		}
+		if t.wb {
+			// write-back mode: in-out arguments may be any local; the results come back into them and are written back
+			mark := len(t.guards)
+			args := t.selfArgs(c)
+			pat := t.retPat
+			wbs := ""
+			for _, al := range t.wbAfterCall {
+				wbs += t.writeBackStr(al)
+			}
+			return t.wrap(mark, "bindr ("+fnPrefix+t.self.Name()+" fuel_ st "+strings.Join(args, " ")+")\n  (fun "+pat+" => "+wbs+next()+")")
 		}
 		// the out-parameters must be passed through unchanged; the other arguments are evaluated now
 		t.recurs = true
@@ -2608,7 +2728,24 @@ func (t *fnTr) assign(x *ast.AssignStmt, next func() string) string {
 			mark := len(t.guards)
 			m, k := t.expr(r.X), t.expr(r.Index)
 			va, vb := bind(a, "val"), bind(b, "bool")
-			return t.wrap(mark, "let '("+va+", "+vb+") := match lookup "+k+" "+m+" with Some v => (v, true) | None => (VNil, false) end in\n  "+next())
+			pre := ""
+			if t.wb && a.Name != "_" {
+				// the entry is part of the tree below the map: remember where it came from (the key is fixed now)
+				var parent *lvar
+				if ta, ok := unparen(r.X).(*ast.TypeAssertExpr); ok {
+					parent = t.lvarOf(ta.X)
+				} else {
+					parent = t.lvarOf(r.X)
+				}
+				if al := t.lvarOf(a); al != nil && parent != nil {
+					t.fresh++
+					kn := fmt.Sprintf("wbk%d", t.fresh)
+					pre = "let " + kn + " := " + k + " in "
+					k = kn
+					al.origin = &aliasOrigin{parent: parent, how: "mapkey", key: kn}
+				}
+			}
+			return t.wrap(mark, pre+"let '("+va+", "+vb+") := match lookup "+k+" "+m+" with Some v => (v, true) | None => (VNil, false) end in\n  "+next())
 		case *ast.TypeAssertExpr: // v, ok := e.(T)
 			pat, k := t.assertPat(t.p.info.Types[r.Type].Type, "v")
 			if pat == "" {
@@ -2617,6 +2754,15 @@ func (t *fnTr) assign(x *ast.AssignStmt, next func() string) string {
 			mark := len(t.guards)
 			e := t.expr(r.X)
 			va, vb := bind(a, k), bind(b, "bool")
+			if t.wb && a.Name != "_" && (k == "vmap" || k == "vlist") {
+				if al, pl := t.lvarOf(a), t.lvarOf(r.X); al != nil && pl != nil {
+					how := "asmap"
+					if k == "vlist" {
+						how = "aslist"
+					}
+					al.origin = &aliasOrigin{parent: pl, how: how}
+				}
+			}
 			return t.wrap(mark, "let '("+va+", "+vb+") := match "+e+" with "+pat+" => (v, true) | _ => ("+fnZero(k)+", false) end in\n  "+next())
 		}
 		t.unsupported(x, "two-value assignment form")
@@ -2855,6 +3001,20 @@ func (t *fnTr) assign(x *ast.AssignStmt, next func() string) string {
 			}
 			val = t.expr(x.Rhs[0])
 			lv := t.newLocal(obj, l.Name, k)
+			if t.wb && (k == "vmap" || k == "vlist" || k == "val") {
+				// m := T(p) / m := p with p part of the tree being updated: another name for the same object
+				src := x.Rhs[0]
+				if c, ok := src.(*ast.CallExpr); ok && len(c.Args) == 1 {
+					if tv, ok := t.p.info.Types[c.Fun]; ok && tv.IsType() {
+						src = c.Args[0]
+					}
+				}
+				if pl := t.lvarOf(src); pl != nil && pl != lv && (pl.isState || pl.origin != nil) {
+					if _, isId := unparen(src).(*ast.Ident); isId {
+						lv.origin = &aliasOrigin{parent: pl, how: "same"}
+					}
+				}
+			}
 			return t.wrap(mark, "let "+lv.name+" : "+fnCoqType(k)+" := "+val+" in\n  "+next())
 		}
 		lv, ok := t.locals[obj]
@@ -2976,6 +3136,13 @@ func (t *fnTr) assign(x *ast.AssignStmt, next func() string) string {
 			t.guards = append(t.guards, fmt.Sprintf("if (Z.ltb %s 0 || Z.leb (Z.of_nat (length %s)) %s) then Crash else", ix, lv.name, ix))
 			return t.wrap(mark, "let "+lv.name+" := lset "+lv.name+" (Z.to_nat "+ix+") "+v+" in\n  "+next())
 		}
+		if t.wb && ok && lv.kind == "vmap" && (lv.origin != nil || lv.isState) {
+			// m[k] = v on a map that is part of the tree being updated: the map variable changes, and so does what it was taken from
+			mark := len(t.guards)
+			k := t.expr(l.Index)
+			v := t.boxVal(x.Rhs[0])
+			return t.wrap(mark, "let "+lv.name+" := set "+k+" "+v+" "+lv.name+" in "+t.writeBackStr(lv)+"\n  "+next())
+		}
 		if !ok || lv.kind != "vmap" || !lv.ownedMap() {
 			t.unsupported(x, "element assignment on something other than a map made by this function")
 		}
@@ -3082,6 +3249,15 @@ func (t *fnTr) storeThroughAssert(x *ast.AssignStmt, l *ast.IndexExpr, ta *ast.T
 	vid, isId := unparen(ta.X).(*ast.Ident)
 	if vl == nil || !isId || vl.kind != "val" || t.kindOfType(t.p.info.Types[ta.Type].Type) != "vmap" {
 		t.unsupported(x, "store through a type assertion other than v.(map[string]interface{})[k] = e on an interface{} local")
+	}
+	if t.wb {
+		mark := len(t.guards)
+		k := t.expr(l.Index)
+		v := t.boxVal(x.Rhs[0])
+		if len(t.guards) != mark {
+			t.unsupported(x, "partial operation in a store through a type assertion")
+		}
+		return "(match " + vl.name + " with VMap mm_ => let " + vl.name + " := VMap (set " + k + " " + v + " mm_) in " + t.writeBackStr(vl) + "\n  " + next() + "\n  | _ => Crash end)"
 	}
 	vobj := t.p.info.Uses[vid]
 	sources := map[types.Object]bool{}
@@ -3528,6 +3704,15 @@ func (t *fnTr) typeSwitch(x *ast.TypeSwitchStmt, rest []ast.Stmt, end func() str
 				pats = append(pats, pat)
 			}
 			if len(pats) > 0 {
+				var uniq []string
+				seenP := map[string]bool{}
+				for _, pt := range pats {
+					if !seenP[pt] {
+						seenP[pt] = true
+						uniq = append(uniq, pt)
+					}
+				}
+				pats = uniq
 				body := cc.Body
 				sb.WriteString("\n  | " + strings.Join(pats, " | ") + " => " + t.tryBody(func() string { return tr(body) }))
 			}
@@ -3546,11 +3731,28 @@ func (t *fnTr) typeSwitch(x *ast.TypeSwitchStmt, rest []ast.Stmt, end func() str
 // loop emits a range loop over the Gallina list xs; bindVars registers the loop variables (after the loop-carried
 // locals have been determined, so that the loop variables are not among them) and returns the element pattern.
 func (t *fnTr) loop(s ast.Stmt, body *ast.BlockStmt, xs string, bindVars func() string, elemTy string, rest []ast.Stmt, end func() string) string {
+	spec := t.nextRebuild
+	t.nextRebuild = nil
 	as := t.assigned(body.List)
+	if spec != nil {
+		present := false
+		for _, a := range as {
+			present = present || a == spec.acc
+		}
+		if !present {
+			as = append(as, spec.acc)
+		}
+	}
 	pat := bindVars()
 	savedIn, savedEnd, savedBreak := t.inLoop, t.loopEnd, t.breakEnd
 	t.inLoop = true
 	t.loopEnd = func() string { return "Next " + tupleVal(as) }
+	if spec != nil {
+		// a rebuilt collection: every pass (also one ended by `continue`) appends the element as it is now
+		t.loopEnd = func() string {
+			return "let " + spec.acc.name + " := (app " + spec.acc.name + " [" + spec.elem() + "]) in Next " + tupleVal(as)
+		}
+	}
 	t.breakEnd = func() string { return "Brk " + tupleVal(as) }
 	saved := map[types.Object]bool{}
 	for k, v := range t.escaped {
@@ -3563,8 +3765,83 @@ func (t *fnTr) loop(s ast.Stmt, body *ast.BlockStmt, xs string, bindVars func() 
 	t.escaped = saved
 	t.inLoop, t.loopEnd, t.breakEnd = savedIn, savedEnd, savedBreak // what follows the loop belongs to the enclosing loop again
 	st := tupleType(as)
+	fin := ""
+	if spec != nil {
+		fin = spec.finish()
+	}
 	return "bindc (S := " + st + ") (range_loop (fun (st_ : " + st + ") (el_ : " + elemTy + ") => let " + tuplePat(as) + " := st_ in let " + pat + " := el_ in\n    (" +
-		b + " : ctl " + st + " " + t.resultType() + ")) " + xs + " " + tupleVal(as) + ")\n  (fun " + tuplePat(as) + " => " + t.stmts(rest, end) + ")"
+		b + " : ctl " + st + " " + t.resultType() + ")) " + xs + " " + tupleVal(as) + ")\n  (fun " + tuplePat(as) + " => " + fin + t.stmts(rest, end) + ")"
+}
+
+type rebuildSpec struct {
+	acc    *lvar
+	elem   func() string
+	finish func() string
+}
+
+// rebuildLoop: for _, v := range C { ... } where the body updates the tree below v (write-back mode): the collection is
+// rebuilt from the elements as they are at the end of every pass and stored back where it came from.
+func (t *fnTr) rebuildLoop(x *ast.RangeStmt, rest []ast.Stmt, end func() string) string {
+	k := t.kindOfExpr(x.X)
+	if k != "vlist" && k != "vmap" {
+		t.unsupported(x, "range over this type with a body that updates the element in place")
+	}
+	if loopExits(x.Body) {
+		t.unsupported(x, "a loop that updates its elements in place and can be left early")
+	}
+	// where the collection lives: Y in Y.(T), or the variable itself
+	var coll *lvar
+	how := ""
+	if ta, ok := unparen(x.X).(*ast.TypeAssertExpr); ok {
+		coll = t.lvarOf(ta.X)
+		how = "assert"
+	} else {
+		coll = t.lvarOf(x.X)
+	}
+	if coll == nil {
+		t.unsupported(x, "range over something other than a variable (or an assertion on one) with a body that updates the element in place")
+	}
+	mark := len(t.guards)
+	xs := t.expr(x.X)
+	acc := t.newLocal(nil, "rb", k)
+	var kn, vn *lvar
+	bind := func() string {
+		vid := x.Value.(*ast.Ident)
+		vn = t.newLocal(t.p.info.Defs[vid], vid.Name, "val")
+		if k == "vlist" {
+			if id, ok := x.Key.(*ast.Ident); x.Key != nil && (!ok || id.Name != "_") {
+				t.unsupported(x, "index variable in a loop that updates its elements in place")
+			}
+			return vn.name
+		}
+		if id, ok := x.Key.(*ast.Ident); ok && id.Name != "_" {
+			kn = t.newLocal(t.p.info.Defs[id], id.Name, "str")
+		} else {
+			kn = t.newLocal(nil, "rbk", "str")
+		}
+		return "'(" + kn.name + ", " + vn.name + ")"
+	}
+	t.nextRebuild = &rebuildSpec{
+		acc: acc,
+		elem: func() string {
+			if k == "vlist" {
+				return vn.name
+			}
+			return "(" + kn.name + ", " + vn.name + ")"
+		},
+		finish: func() string {
+			if how == "assert" {
+				return "let " + coll.name + " := " + boxByKind(acc) + " in " + t.writeBackStr(coll)
+			}
+			return "let " + coll.name + " := " + acc.name + " in " + t.writeBackStr(coll)
+		},
+	}
+	ety := "value"
+	if k == "vmap" {
+		ety = "(str * value)"
+	}
+	out := t.loop(x, x.Body, xs, bind, ety, rest, end)
+	return t.wrap(mark, "let "+acc.name+" : "+fnCoqType(k)+" := "+fnZero(k)+" in "+out)
 }
 
 func (t *fnTr) rangeStmt(x *ast.RangeStmt, rest []ast.Stmt, end func() string) string {
@@ -3580,8 +3857,23 @@ func (t *fnTr) rangeStmt(x *ast.RangeStmt, rest []ast.Stmt, end func() string) s
 			return t.wrap(mark, "let '("+kl.name+", "+vl.name+") := match "+m+" with (k_, v_) :: _ => (k_, v_) | [] => ("+kl.name+", "+vl.name+") end in\n  "+t.stmts(rest, end))
 		}
 	}
+	if x.Tok == token.ASSIGN && t.kindOfExpr(x.X) == "vmap" && len(x.Body.List) == 0 {
+		// for k, v = range m { }: after the loop k and v hold the entry visited last (unchanged when the map is empty)
+		kl, vl := t.lvarOf(x.Key), t.lvarOf(x.Value)
+		if kl == nil || vl == nil || kl.kind != "str" || vl.kind != "val" {
+			t.unsupported(x, "range with = into something other than a string and an interface{} local")
+		}
+		mark := len(t.guards)
+		m := t.expr(x.X)
+		return t.wrap(mark, "let '("+kl.name+", "+vl.name+") := last "+m+" ("+kl.name+", "+vl.name+") in\n  "+t.stmts(rest, end))
+	}
 	if x.Tok != token.DEFINE {
 		t.unsupported(x, "range without :=")
+	}
+	if t.wb {
+		if vid, ok := x.Value.(*ast.Ident); ok && vid.Name != "_" && t.mutates(x.Body.List, t.p.info.Defs[vid]) {
+			return t.rebuildLoop(x, rest, end)
+		}
 	}
 	k := t.kindOfExpr(x.X)
 	name := func(e ast.Expr, kind string) string {
@@ -3957,7 +4249,7 @@ func constTable(p *pkgInfo, vs *ast.ValueSpec, i int) (string, bool) {
 
 // the functions translated into Pure_gen.v ("Recv.Method" for methods)
 var pureFuncs = []string{"cast", "escapeChars", "parsePath", "getSubKeyMap", "hasSubKeys", "Map.PathForKeyShortest", "valuesForKeyPath", "hasKey", "hasKeyPath", "getLeafNodes",
-	"Map.ValuesForKey", "Map.oldValuesForPath", "Map.ValuesForPath", "Map.LeafNodes", "getJson", "NewMapJsonReader", "NewMapJsonReaderRaw", "Map.Exists", "Map.ValueForPath", "Map.ValueForKey", "Map.LeafPaths", "Map.LeafValues", "valuesForArray", "Map.PathsForKey", "byteReader.ReadByte", "teeReader.ReadByte", "Maps.JsonString", "Maps.JsonStringIndent", "Maps.XmlString", "Maps.XmlStringIndent", "BeautifyXml", "Map.Copy", "Map.Json", "Map.Root", "NewMapXml", "NewMapXmlSeq", "lastKey", "xmlToMapParser", "xmlSeqToMapParser", "Map.JsonWriter", "Map.JsonWriterRaw", "Map.JsonIndentWriter", "Map.JsonIndentWriterRaw", "Map.XmlWriter", "Map.XmlIndentWriter", "MapSeq.XmlWriter", "MapSeq.XmlIndentWriter", "mapToXmlSeqIndent", "pretty.Indent", "pretty.Outdent", "elemListSeq.Less", "marshalMapToXmlIndent", "attrList.Less", "elemList.Less", "NewMapJson"}
+	"Map.ValuesForKey", "Map.oldValuesForPath", "Map.ValuesForPath", "Map.LeafNodes", "getJson", "NewMapJsonReader", "NewMapJsonReaderRaw", "Map.Exists", "Map.ValueForPath", "Map.ValueForKey", "Map.LeafPaths", "Map.LeafValues", "valuesForArray", "Map.PathsForKey", "byteReader.ReadByte", "teeReader.ReadByte", "Maps.JsonString", "Maps.JsonStringIndent", "Maps.XmlString", "Maps.XmlStringIndent", "BeautifyXml", "Map.Copy", "Map.Json", "Map.Root", "NewMapXml", "NewMapXmlSeq", "lastKey", "xmlToMapParser", "xmlSeqToMapParser", "Map.JsonWriter", "Map.JsonWriterRaw", "Map.JsonIndentWriter", "Map.JsonIndentWriterRaw", "Map.XmlWriter", "Map.XmlIndentWriter", "MapSeq.XmlWriter", "MapSeq.XmlIndentWriter", "mapToXmlSeqIndent", "pretty.Indent", "pretty.Outdent", "elemListSeq.Less", "marshalMapToXmlIndent", "attrList.Less", "elemList.Less", "NewMapJson", "updateValueForKey", "updateValue", "updateValuesForKeyPath", "Map.UpdateValuesForPath"}
 
 // joinMode: functions translated in join mode (see branching): the statements after an if / switch are translated
 // once instead of into every branch.  The continuation-passing translation of the other functions is kept as it is
@@ -3981,6 +4273,7 @@ func genPureX2j(core, p *pkgInfo) string {
 }
 
 func genPure(p *pkgInfo) string {
+	ioInfo := computeInout(p)
 	vars, _ := pkgVars(p)
 	byObj := map[types.Object]*gvar{}
 	for _, g := range vars {
@@ -4107,6 +4400,7 @@ func genPure(p *pkgInfo) string {
 			t := &fnTr{p: p, vars: byObj, fn: fn, locals: map[types.Object]*lvar{}, used: map[string]int{}, tables: tables,
 				externs: &externs, structs: structs, escaped: map[types.Object]bool{}}
 			t.sumJoin, t.curS, t.lenient = joinMode[qname], "unit", lenientFuncs[qname]
+			t.io, t.wb, t.aliases = ioInfo, writeBackFuncs[qname], aliasGraph(p, fn)
 			params := ""
 			t.stateAt = map[int]*lvar{}
 			if fobj, ok := p.info.Defs[fn.Name].(*types.Func); ok {
@@ -4180,7 +4474,18 @@ func genPure(p *pkgInfo) string {
 				t.locals[obj] = lv
 				t.used[n] = 1
 				params += fmt.Sprintf(" (%s : %s)", n, fnCoqType(k))
-				if strings.HasPrefix(k, "ptr:") || (k == "bmap" && mutated[obj]) || k == "reader" || k == "xdecoder" || k == "writer" {
+				ioPos := pos
+				if isRecv {
+					ioPos = -1
+				}
+				inout := false
+				if fo, ok := p.info.Defs[fn.Name].(*types.Func); ok && ioInfo.params[fo][ioPos] && (k == "val" || k == "vmap" || k == "vlist") {
+					if !t.wb {
+						t.unsupported(id, "the function updates the tree below this parameter in place (not translated in write-back mode)")
+					}
+					inout = true
+				}
+				if strings.HasPrefix(k, "ptr:") || (k == "bmap" && mutated[obj]) || k == "reader" || k == "xdecoder" || k == "writer" || inout {
 					lv.isState = true
 					t.state = append(t.state, lv)
 					if !isRecv {
